@@ -252,7 +252,7 @@ Eval(G, e, env, txt, p) ==
            IF e[2] \notin DOMAIN G.rules THEN Ill
            ELSE LET ps == G.rules[e[2]].params
                     b  == BindArgs(G, ps, e[3], 1, 1, env, EmptyEnv) IN
-                IF b = Bad THEN Ill ELSE EvalRule(G, e[2], b, txt, p)
+                IF b[1] # "env" THEN Ill ELSE EvalRule(G, e[2], b[2], txt, p)
       [] e[1] = "optable" -> EvalOpTable(G, e, env, txt, p)
 
 (* positional arguments bind in order, keyword arguments by name.  An      *)
@@ -260,7 +260,7 @@ Eval(G, e, env, txt, p) ==
 (* binding on; anything else is a parser closed over the call-site env.    *)
 BindArgs(G, ps, args, i, nextpos, env, acc) ==
     IF i > Len(args)
-    THEN IF DOMAIN acc = {ps[k] : k \in 1..Len(ps)} THEN acc ELSE Bad
+    THEN IF DOMAIN acc = {ps[k] : k \in 1..Len(ps)} THEN <<"env", acc>> ELSE Bad
     ELSE LET a  == args[i]
              ae == IF a[1] = "kw" THEN a[3] ELSE a[2]
              nm == IF a[1] = "kw" THEN a[2]
